@@ -8,6 +8,7 @@ package main
 import (
 	"fmt"
 	"reflect"
+	"strings"
 	"unsafe"
 
 	"github.com/cockroachdb/redact"
@@ -195,6 +196,65 @@ func c05badVerbContainers(c *Ctx, cfg map[string]bool) {
 				continue
 			}
 			w.Nontrivial(hashStrs("badverb", cse.format, sprintType(cse.operand), routeNames[route], sprint(cfg["RegInt"])))
+		}
+	})
+}
+
+// c05unexported: unexported struct fields are printed without any method and, unless their type is registered, are
+// never declared safe; an exported sibling that is a SafeValue (and printed through its own method) must not change
+// that. Written-out expectations: every leaf is what fmt prints for it under the directive, unsafe ones enveloped.
+type tUnexpAfterSafe struct {
+	Label  tSVStringer
+	secret string
+	pin    int
+	Reg    tRegInt
+	flag   bool
+	Tail   tSVStr
+	last   string
+}
+
+func c05unexported(c *Ctx, cfg map[string]bool) {
+	u := func(s string) string { return wrapUnsafe(s) }
+	v := tUnexpAfterSafe{tSVStringer{"acct"}, "hunter2", 1234, tRegInt(7), true, tSVStr("pub"), "end" + startM}
+	dirs := []string{"%v", "%+v", "%10v", "%-8v", "%+12v", "%3v", "%+-9v"} // verbs valid for every leaf
+	c.ParallelFor(int64(len(dirs)), func(w *Worker, i int64) {
+		d := dirs[i]
+		leaf := func(x interface{}) string { return esc(fmt.Sprintf(strings.Replace(d, "+", "", 1), x)) }
+		name := func(n string) string {
+			if strings.Contains(d, "+") {
+				return n + ":"
+			}
+			return ""
+		}
+		reg := leaf(v.Reg)
+		if !cfg["RegInt"] {
+			reg = u(reg)
+		}
+		// the two SafeValue fields: Label through its String method, Tail as a string
+		want := "{" + name("Label") + leaf(v.Label) + " " + name("secret") + u(leaf(v.secret)) + " " + name("pin") + u(leaf(v.pin)) + " " + name("Reg") + reg + " " +
+			name("flag") + u(leaf(v.flag)) + " " + name("Tail") + leaf(string(v.Tail)) + " " + name("last") + u(leaf(v.last)) + "}"
+		for _, operand := range []interface{}{v, &v, []interface{}{v}} {
+			exp := want
+			switch operand.(type) {
+			case *tUnexpAfterSafe:
+				exp = "&" + want
+			case []interface{}:
+				exp = "[" + want + "]"
+			}
+			for _, route := range []int{routeS, routeBuilder, routeSF} {
+				o := runRedact(route, false, "a "+d+" z", []interface{}{operand})
+				w.Eval(1)
+				cs := map[string]string{"format": d, "operand": sprintType(operand), "route": routeNames[route]}
+				if o.panicked {
+					w.Violate("C05 unexported-after-safe", routeNames[route]+" panicked: "+pvalString(o.pval), cs)
+					continue
+				}
+				if canon(o.out) != canon("a "+exp+" z") {
+					w.Violate("C05 unexported-after-safe", routeNames[route]+"("+q(d)+", "+sprintType(operand)+") = "+q(o.out)+", want "+q("a "+exp+" z")+" (unexported fields stay enveloped whatever their exported neighbours are)", cs)
+					continue
+				}
+				w.Nontrivial(hashStrs("unexp", d, sprintType(operand), routeNames[route], sprint(cfg["RegInt"])))
+			}
 		}
 	})
 }
